@@ -39,7 +39,7 @@ func init() {
 			if tier == "thorough" {
 				return 6000
 			}
-			return 128
+			return 192
 		},
 		Run: run,
 		Init: func() {
@@ -51,6 +51,10 @@ func init() {
 		},
 	})
 }
+
+// noDirect: these blocks are refused by the state machine itself (addProposalBlockPart drops a block whose
+// recover count differs from the node's), not by ValidateBlock; only the vote oracle judges them.
+var noDirect = map[string]bool{"header/Recover-nonzero+ValidatorsHash": true}
 
 type corruption struct {
 	Name  string
@@ -134,6 +138,15 @@ var corruptions = []corruption{
 		b.ValidatorsHash = flipHash(b.ValidatorsHash, r)
 		return true
 	}},
+	{"header/Recover-nonzero+ValidatorsHash", 1, func(r *rng.R, b *types.Block, e *env) bool {
+		// a block that claims a recover round while the chain runs normally; validation of such blocks skips the
+		// validator-set hash, the state machine drops them because its own recover count differs. (Recover alone
+		// is not part of the block hash: a Recover-only change is indistinguishable, by hash, from the honest
+		// block and cannot be judged through votes; the validator-set hash makes the identity differ.)
+		b.Recover = uint32(1 + r.Intn(7))
+		b.ValidatorsHash = flipHash(b.ValidatorsHash, r)
+		return true
+	}},
 	{"header/LastCommitHash-inconsistent", 1, func(r *rng.R, b *types.Block, e *env) bool {
 		b.LastCommitHash = flipHash(b.LastCommitHash, r)
 		return true
@@ -181,6 +194,41 @@ var corruptions = []corruption{
 		}
 		setCommit(b, newCommit(b.LastCommit.BlockID, pcs))
 		return best >= 0
+	}},
+	{"lastcommit/one-signer-in-several-slots", 2, func(r *rng.R, b *types.Block, e *env) bool {
+		// one genuine precommit copied into every slot (verbatim, or with the index rewritten to the slot): the
+		// signatures are all valid signatures of ONE validator; a verifier that does not bind the slot to the
+		// validator counts its power once per slot
+		pcs := commitVotes(b)
+		var src *types.Vote
+		for _, i := range r.Perm(len(pcs)) {
+			if pcs[i] != nil {
+				src = pcs[i]
+				break
+			}
+		}
+		if src == nil || len(pcs) < 2 {
+			return false
+		}
+		rewrite := r.Bool()
+		keepGenuine := r.Chance(0.3) // leave one other genuine precommit in place (still far below the quorum)
+		kept := false
+		for i := range pcs {
+			if pcs[i] == src {
+				continue
+			}
+			if keepGenuine && !kept && pcs[i] != nil {
+				kept = true
+				continue
+			}
+			cp := *src
+			if rewrite {
+				cp.ValidatorIndex = i
+			}
+			pcs[i] = &cp
+		}
+		setCommit(b, newCommit(b.LastCommit.BlockID, pcs))
+		return true
 	}},
 	{"lastcommit/all-nil", 2, func(r *rng.R, b *types.Block, e *env) bool {
 		setCommit(b, newCommit(b.LastCommit.BlockID, make([]*types.Vote, len(b.LastCommit.Precommits))))
@@ -429,8 +477,11 @@ func run(c *core.Ctx) {
 			a.N.Mempool.AddTx("", tx)
 		}
 	}
+	// every corruption gets its share of the cases (round robin over the case index), the rest is drawn
 	ci := r.Intn(len(corruptions))
-	if r.Chance(0.15) {
+	if c.Index%3 != 2 {
+		ci = (c.Index - c.Index/3) % len(corruptions)
+	} else if r.Chance(0.45) {
 		// the quorum boundary deserves more than 1/25 of the cases
 		for i, cc := range corruptions {
 			if cc.Name == "lastcommit/too-few-precommits" {
@@ -523,7 +574,7 @@ func run(c *core.Ctx) {
 			if name != "" {
 				// by-construction check: the repository's validator (on this correct node's status) must reject it;
 				// if it does not, either the corruption is a no-op or validation itself is weakened
-				if err := apps[n.ID].N.BlockExec.ValidateBlock(e.status, fresh); err == nil {
+				if err := apps[n.ID].N.BlockExec.ValidateBlock(e.status, fresh); err == nil && !noDirect[name] {
 					c.Count("corruptions_accepted_by_ValidateBlock", 1)
 					sim.Mon.Violate("validateblock-accepts/"+name, fmt.Sprintf("ValidateBlock accepted a block at height %d with corruption %s", fresh.Height, name))
 				}
